@@ -43,14 +43,20 @@ pub trait Simulator: Sync {
 fn simulators_for(property: &str, thorough: bool) -> Vec<Box<dyn Simulator>> {
     match property {
         "C13" | "C19" | "C02" => vec![Box::new(sims::envsim_driver::EnvSimDriver::new(property, thorough))],
-        "C12" => vec![Box::new(sims::iosim_driver::IoSimDriver::new(property))],
+        "C12" => vec![
+            Box::new(sims::iosim_driver::IoSimDriver::new(property)),
+            Box::new(sims::clisim_driver::CliRobustDriver),
+        ],
         "C10" => vec![
             Box::new(sims::clisim_driver::CliTableDriver::new(property, thorough)),
             Box::new(sims::iosim_driver::IoSimDriver::new(property)),
         ],
         "C11" => vec![Box::new(sims::clisim_driver::CliTableDriver::new(property, thorough))],
         "C18" => vec![Box::new(sims::rgsim_driver::RgSimDriver)],
-        "C14" => vec![Box::new(sims::dotsim_driver::DotSimDriver)],
+        "C14" => vec![
+            Box::new(sims::dotsim_driver::DotSimDriver),
+            Box::new(sims::clisim_driver::CliExportDriver),
+        ],
         _ => vec![],
     }
 }
